@@ -17,6 +17,54 @@ pub struct VOp {
     pub o: [u32; 3],
     pub tag: u32,
     pub val: u32,
+    /// counts the operation values that exist (C13: a request that is over lets go of its operation)
+    #[serde(skip)]
+    pub live: Live,
+}
+
+static LIVE_OPS: std::sync::atomic::AtomicI64 = std::sync::atomic::AtomicI64::new(0);
+
+/// number of VOp values alive in the process right now
+pub fn live_ops() -> i64 {
+    LIVE_OPS.load(Ordering::SeqCst)
+}
+
+#[derive(Debug)]
+pub struct Live(u64);
+static NEXT_LIVE: std::sync::atomic::AtomicU64 = std::sync::atomic::AtomicU64::new(1);
+impl Default for Live {
+    fn default() -> Self {
+        LIVE_OPS.fetch_add(1, Ordering::SeqCst);
+        let id = NEXT_LIVE.fetch_add(1, Ordering::SeqCst);
+        if std::env::var_os("VERIF_OPS_DEBUG").is_some() {
+            let bt = std::backtrace::Backtrace::force_capture().to_string();
+            let short: Vec<&str> = bt.lines().filter(|l| l.contains("crux") && !l.contains("Live")).take(6).collect();
+            eprintln!("+op {id} {}", short.join(" | "));
+        }
+        Live(id)
+    }
+}
+impl Clone for Live {
+    fn clone(&self) -> Self {
+        Live::default()
+    }
+}
+impl Drop for Live {
+    fn drop(&mut self) {
+        LIVE_OPS.fetch_sub(1, Ordering::SeqCst);
+        if std::env::var_os("VERIF_OPS_DEBUG").is_some() {
+            eprintln!("-op {}", self.0);
+        }
+    }
+}
+impl PartialEq for Live {
+    fn eq(&self, _: &Self) -> bool {
+        true
+    }
+}
+impl Eq for Live {}
+impl std::hash::Hash for Live {
+    fn hash<H: std::hash::Hasher>(&self, _: &mut H) {}
 }
 
 impl Operation for VOp {
@@ -76,6 +124,8 @@ pub struct CaseCtx {
     /// channels that belong to the case, not to a command (like a sender kept in an app's model): any task of
     /// any command can send on them or wait for them; they never close
     pub gchans: Mutex<HashMap<u32, GChan>>,
+    /// operation values alive when the case began
+    pub ops_base: i64,
 }
 
 #[derive(Clone)]
@@ -118,6 +168,7 @@ pub fn install_case(table: Table) -> Arc<CaseCtx> {
         in_update: AtomicU32::new(0),
         max_in_update: AtomicU32::new(0),
         gchans: Mutex::new(HashMap::new()),
+        ops_base: live_ops(),
     });
     CASE.with(|c| *c.borrow_mut() = Some(ctx.clone()));
     ctx
